@@ -292,10 +292,11 @@ func nonEmptyVia(c *Ctx, fn, re string) (bool, string) {
 	x := &SPE{Fn: f}
 	x.Explore()
 	for _, p := range x.Paths {
-		if p.Term != "return" || len(p.Results) == 0 {
+		fi, _, _ := resultRoles(f)
+		if p.Term != "return" || fi < 0 || len(p.Results) <= fi {
 			continue
 		}
-		if v, ok := p.Results[0].boolConst(); ok && !v {
+		if v, ok := p.Results[fi].boolConst(); ok && !v {
 			continue
 		}
 		// a found path must carry the literal "FindSubmatch(re, line) != nil"
@@ -303,7 +304,7 @@ func nonEmptyVia(c *Ctx, fn, re string) (bool, string) {
 		for _, l := range p.Lits {
 			if !l.Pol && l.Atom.Op == OpBin && l.Atom.Args[1].isNilConst() {
 				if call := l.Atom.Args[0]; call.calleeIs("regexp", "(*Regexp).FindSubmatch") {
-					if g := call.Args[1].globalLoaded(); g != nil && g.Name() == re && call.Args[2].Op == OpParam {
+					if g := call.Args[1].globalLoaded(); g != nil && g.Name() == re && isLineOrTrimmed(call.Args[2]) {
 						okp = true
 					}
 				}
@@ -381,4 +382,16 @@ func constantString(k *ssa.Const) (string, bool) {
 		return "", false
 	}
 	return constant.StringVal(k.Value), true
+}
+
+// isLineOrTrimmed: the line parameter itself, or the line with its leading
+// blanks trimmed (an empty line stays empty).
+func isLineOrTrimmed(e *Expr) bool {
+	if e.Op == OpParam {
+		return true
+	}
+	if e.Op == OpCall && e.Fn != nil && e.Fn.Name() == "trimLeftSpace" && len(e.Args) == 2 && e.Args[1].Op == OpParam {
+		return true
+	}
+	return false
 }
